@@ -166,7 +166,7 @@ pub fn run(only: &[String]) -> Vec<String> {
             if let Err(e) = run_history(&pairs, &extra, &order, &desc) { if n < 3 { n += 1; let (c, m) = e.split_once(' ').unwrap(); fails.push(format!("FAIL EGraph::eq {} {}", c, m)); } }
         }
     }
-    let seeds: u64 = if deep { 4000 } else { 60 };
+    let seeds: u64 = if deep { verif_scale(4000) } else { 60 };
     for seed in 1..=seeds {
         let mut r = Rng(seed.wrapping_mul(0x9E3779B97F4A7C15).wrapping_add(3));
         let pairs: Vec<(String, String)> = (0..4).map(|_| law(&mut r)).collect();
